@@ -39,7 +39,14 @@ func (w *World) c11Transfers(full bool) []c11Transfer {
 	fwds := []Fwd{w.FwdCCTP(0), w.FwdCCTPCaller(1), w.FwdHyp(1), w.FwdInternal(w.Bob),
 		pt(w.FwdCCTP(0)), pt(w.FwdHyp(1)), pt(w.FwdInternal(w.Bob)),
 		w.FwdHypIGP("500uigp"), w.FwdHypIGP("0uusdc"), w.FwdHypIGP("5uusdc"),
-		w.FwdHyp(3), w.FwdInternal(w.Dust)}
+		w.FwdHyp(3), w.FwdInternal(w.Dust),
+		// the ORDINARY token and mailbox, but the sender names a gas paymaster as custom hook (anybody can create one and
+		// claim what it collects) and a max fee in a denomination other than the transferred one
+		{Kind: "hyp", Tag: "hypCustomIGP(maxfee=500uigp)", Domain: 1, Token: w.TokenT0.Bytes(), Recipient: b32(5), Hook: w.IgpI1.Bytes(), GasLimit: "0", MaxFee: "500uigp"},
+		{Kind: "hyp", Tag: "hypCustomIGP(maxfee=5000uigp,gas=1)", Domain: 1, Token: w.TokenT0.Bytes(), Recipient: b32(5), Hook: w.IgpI1.Bytes(), GasLimit: "1", MaxFee: "5000uigp"},
+		{Kind: "hyp", Tag: "hypCustomIGP(maxfee=7uother)", Domain: 1, Token: w.TokenT0.Bytes(), Recipient: b32(5), Hook: w.IgpI1.Bytes(), GasLimit: "0", MaxFee: "7uother"},
+		{Kind: "hyp", Tag: "hyp(1,maxfee=7uother)", Domain: 1, Token: w.TokenT0.Bytes(), Recipient: b32(5), GasLimit: "0", MaxFee: "7uother"},
+		{Kind: "hyp", Tag: "hyp(1,maxfee=7uusdc)", Domain: 1, Token: w.TokenT0.Bytes(), Recipient: b32(5), GasLimit: "0", MaxFee: "7uusdc"}}
 	fees := w.feeMenu()[:3]
 	amts := []string{"1000", "1"}
 	if full {
